@@ -35,6 +35,8 @@ CLAIMED = {
    note=NOTE, design="5/C11"),
  'C12': dict(text="Coq theorems over the Gin-machine: locked => every mutation raises and changes nothing; unlock_config restores the lock on every exit path; finalize atomicity, finalize-twice, hook-conflict rejection for any two spellings, built-in hooks; correspondence on generated histories + an independent lock automaton written from the property text.",
    note=NOTE + " finalize is modelled with an empty active scope.", design="5/C12"),
+ 'C18': dict(text="Coq theorems over an interleaving semantics with arbitrary schedules, thread counts and programs: mutual exclusion invariant, no call or read ever fails because of another thread, every completed read is a snapshot of the record, look-ups in the final record are schedule-independent (= sequential), singletons are constructed at most once per name and every use receives that object; refutation theorem with a concrete schedule for the original unlocked singleton_value and a sanity theorem that a read can fail without the lock. Tied to /repo by REAL threads driven deterministically at source-line granularity (sys.settrace tracer, preemption lines taken from the AST of the current gin/config.py, cooperative lock wrappers): exceptions per thread, every read text parses, final record vs a sequential run, constructions and identities per singleton; the model is compared on the schedule-independent observations.",
+   note=NOTE + " Partial on granularity: atomic steps are source lines; bytecode-level interleavings and CPython dict internals are outside the model.", design="5/C18"),
  'C20': dict(text="Coq theorems: clear_config is total and yields an empty store / operative record / singleton cache, an unlocked config and the same registry, and after ANY history from any registrations keeps every constant; refutation theorem for the code before the repair. Correspondence on generated histories + comparison with a freshly imported gin given the same registrations.",
    note=NOTE, design="5/C20"),
 }
